@@ -13,9 +13,10 @@ import TlsModel.Suites
     ffc alg|None suites                               -> suites      (filter_for_certificate)
     cguard vmaj vmin s offered                        -> 1|0         (client's ServerHello suite guard)
     ccn s / cmn s                -> canonical cipher / MAC name | None
-    ckex s                       -> class expectsCertificate expectsSKE
+    ckex s                       -> class expectsCertificate expectsSKE checksChain   (generated client chain/conditions)
     ske s                        -> kind|AssertionError signed
-    skex s                       -> class sendsCertificate                     | AssertionError
+    skex s                       -> helper class sendsCertificate recordsChain | AssertionError recordsChain (generated server chain)
+    chainproblems                -> - | what the chain translator could not classify
     obs s vmaj vmin client|server-> rendered Obs | None      (modelObs)
     spec s vmaj vmin             -> rendered Obs | None      (specObsOf)
     sem s                        -> rendered SuiteSem | None (semOf: generated char codes)
@@ -25,7 +26,7 @@ import TlsModel.Suites
     neg client|server vmaj vmin  -> suites     (negotiableAt)
     selunion                     -> suites     (modelSelectorUnion)
 -/
-open Tls Tls.Suites Tls.Gen.Suites
+open Tls Tls.Suites Tls.Gen.Suites Tls.Gen.KexChains
 
 def natsOut (l : List Nat) : String := natList l
 
@@ -86,13 +87,23 @@ def handle : List String → Option String
   | ["cmn", s] => do some (optStr MName.str (canonicalMacName (← s.toNat?)))
   | ["ckex", s] => do
     let s ← s.toNat?
-    some s!"{(clientKexClass s).str} {boolStr (clientExpectsCertificate s)} {boolStr (clientExpectsSKE s)}"
+    some s!"{optStr KexClass.str (clientKexClass s)} {optStr boolStr (clientExpectsCertificate s)} {optStr boolStr (clientExpectsSKE s)} {optStr boolStr (clientChecksChain s)}"
   | ["ske", s] => do
     let s ← s.toNat?
     some s!"{exOut SkeKind.str (skeKind s)} {boolStr (skeSigned s)}"
   | ["skex", s] => do
     let s ← s.toNat?
-    some (exOut (fun (p : KexClass × Bool) => s!"{p.1.str} {boolStr p.2}") (serverKexClass s))
+    let leaf := match serverKexChain.eval s with
+      | none => "unknown"
+      | some none => "AssertionError"
+      | some (some (p, c)) => s!"{p.str} {c.str} {optStr boolStr ((serverPathSendsCert p).eval s)}"
+    some s!"{leaf} {optStr boolStr (serverRecordsChain s)}"
+  | ["chainproblems"] =>
+    let u := clientKexChain.unknowns ++ serverKexChain.unknowns ++ clientExpectsCertificateCond.unknowns ++
+      clientExpectsSKECond.unknowns ++ clientChecksChainCond.unknowns ++ serverRecordsChainCond.unknowns ++
+      (serverPathSendsCert .srp).unknowns ++ (serverPathSendsCert .cert).unknowns ++ (serverPathSendsCert .anon).unknowns ++
+      Tls.Gen.KexChains.translatorProblems
+    some (if u.isEmpty then "-" else "|".intercalate (u.map fun w => w.replace " " "_"))
   | ["obs", s, a, b, r] => do
     let s ← s.toNat?
     let r ← parseRole r
